@@ -176,6 +176,10 @@ func c12Fixed() []string {
 		"{log}never written {$s}{/log}visible",
 		"{$l}{$m}{$x + 1}{$s + $s}",
 		"{'&<>\"\\''}{'&<>\"\\''|noAutoescape}",
+		// long message text before html tags, at the very end of the file (positions of the parts of
+		// a message are computed from text lengths)
+		"{msg desc=\"d\"}" + strings.Repeat("long text ", 30) + "<b>{$x}</b> " + strings.Repeat("more\ntext ", 30) + "<i>z</i>{/msg}",
+		"{msg desc=\"p\"}{plural $x}{case 1}" + strings.Repeat("one long text ", 20) + "<b>{$s}</b>{default}" + strings.Repeat("many long text ", 20) + "<br>{$x}<hr>{/plural}{/msg}",
 	}
 }
 
@@ -205,8 +209,9 @@ func checkC12(c *Ctx) {
 		gen := strings.HasPrefix(body, "GEN:")
 		body = strings.TrimPrefix(body, "GEN:")
 		for di, d := range datas {
-			for _, withBundle := range []bool{false, true} {
-				if gen && (withBundle || di > 0) {
+			for _, variant := range []int{0, 1, 2, 3} {
+				withBundle, libFirst := variant&1 == 1, variant&2 == 2
+				if gen && (withBundle || libFirst || di > 0) {
 					continue
 				}
 				if !c.Mine() {
@@ -226,6 +231,11 @@ func checkC12(c *Ctx) {
 					src = "{namespace app.main}\n/**\n * @param? x\n * @param? s\n * @param? l\n * @param? m\n */\n{template .entry}\n" + body + "{if false}{$x}{$s}{$l}{$m}{/if}\n{/template}\n" + lib
 					files = map[string]string{"main.soy": src}
 					dd = d
+					if libFirst {
+						// the same entry template as the last thing in its file
+						src = "{namespace app.main}\n" + lib + "/**\n * @param? x\n * @param? s\n * @param? l\n * @param? m\n */\n{template .entry}\n{if false}{$x}{$s}{$l}{$m}{/if}" + body + "\n{/template}"
+						files = map[string]string{"main.soy": src}
+					}
 				}
 				runFaults(c, files, dd, withBundle, gen)
 			}
